@@ -130,6 +130,9 @@ def key_class(tag: str, orderable: bool) -> type:
     return cls
 
 
+for _tag, _ord in (('vk.KO', True), ('vk.KP', True), ('vk.KU', False), ('vk.KV', False)):
+    key_class(_tag, _ord)
+
 # ---------------------------------------------------------------------------------------------
 # namedtuple / struct-sequence classes
 
@@ -265,8 +268,12 @@ class _Fac3:
     def __repr__(self):
         return 'fac3'
 
+    def __reduce__(self):
+        return 'fac3'          # pickled by reference to the module-level singleton
 
-FACTORIES = [int, list, dict, _Fac3()]
+
+fac3 = _Fac3()
+FACTORIES = [int, list, dict, fac3]
 
 
 def _pred7(x):
